@@ -59,6 +59,7 @@ var c07configs = []c07config{
 	{"os", nil, []string{"a", "."}}, {"os", nil, []string{".", "a"}}, {"os", nil, []string{".", "."}}, {"os", nil, []string{"a", ".", "b"}},
 	{"minimal", nil, []string{"a"}}, {"minimal", nil, []string{"a", "b"}},
 	{"custom", nil, []string{"a"}}, {"custom", nil, []string{"a", "b"}}, // a parent whose Rename reports failures as *PathError
+	{"mount-os", nil, []string{"a"}}, {"mount-os", nil, []string{"a", "b"}}, {"mount-os", nil, []string{"."}}, // a mount.FS rooted at an os.FS: the view reaches Lstat/Symlink/Chown only through the MountFS branches of the helpers
 }
 
 // pathErrRenameFS is a mem.FS whose Rename reports its failures the way some third-party file systems do: as *PathError.
@@ -115,7 +116,7 @@ func newC07Parent(env *core.Env, cfg c07config) (*c07parent, error) {
 			}
 			p.parts[mp] = f
 		}
-	case "os":
+	case "os", "mount-os":
 		d, err := os.MkdirTemp(env.Scratch, "c07os-")
 		if err != nil {
 			return nil, err
@@ -130,6 +131,13 @@ func newC07Parent(env *core.Env, cfg c07config) (*c07parent, error) {
 			return nil, err
 		}
 		p.fs, p.build = v, v
+		if cfg.Parent == "mount-os" {
+			mf, err := mount.NewFS(v)
+			if err != nil {
+				return nil, err
+			}
+			p.fs, p.build = mf, mf
+		}
 		p.osRoot = d
 		p.parts["osdir"] = &fsx.OSRef{Root: d}
 	}
@@ -294,6 +302,9 @@ func c07run(env *core.Env, idx int) core.CaseResult {
 			st = gen.Namespace(tree, false)
 			if gen.R.Intn(12) == 0 {
 				st = fsx.Step{K: "Sub", P: gen.Path(tree)}
+			}
+			if gen.R.Intn(14) == 0 {
+				st = fsx.Step{K: []string{"Lstat", "LstatOrStat"}[gen.R.Intn(2)], P: gen.Path(tree)}
 			}
 			if try > 20 || !env.Known.KnownSituation("C07", fmt.Sprintf("C07|%s|%s|", kind, st.K)) {
 				break
